@@ -455,7 +455,75 @@ def gen_err_alts(r):
     return g
 
 
+def transform_grammar(r, g, with_transl=True):
+    """derive a grammar by a few local transformations that compose the features random rules
+    rarely combine: nullable symbols anywhere in a rule (prefix, middle, tail, adjacent pairs),
+    unit / pass-through chains around a symbol, duplicated rules with another translation or
+    cost, self-embedding, `error` alternatives.  Returns the original grammar if the result is
+    not accepted by the definition checks."""
+    if getattr(g, 'inputs_fn', None) is not None or not g.rules or not g.terms: return g
+    rules = [list(x) for x in g.rules]
+    tn = [n for n, _ in g.terms]
+    fresh = [0]
+    def new_nt(prefix):
+        fresh[0] += 1
+        return '%s%d' % (prefix, fresh[0])
+    def insert(rule, pos, sym, translate):
+        lhs, an, cost, rhs, tr = rule
+        rhs = rhs[:pos] + [sym] + rhs[pos:]
+        if tr is not None:
+            tr = [e if e == NIL or e < pos else e + 1 for e in tr]
+            if translate and an is not None: tr.insert(r.randint(0, len(tr)), pos)
+        rule[3], rule[4] = rhs, tr
+    for _ in range(r.choice([1, 1, 2, 2, 3, 4])):
+        k = r.choice(['nullable', 'nullable', 'nullable2', 'tail', 'unit', 'unit', 'dup', 'embed', 'erralt', 'prefix'])
+        rule = r.choice(rules)
+        if k in ('nullable', 'nullable2', 'tail', 'prefix'):
+            n = new_nt('N')
+            pos = len(rule[3]) if k == 'tail' else 0 if k == 'prefix' else r.randint(0, len(rule[3]))
+            insert(rule, pos, n, r.random() < 0.6)
+            if k == 'nullable2':
+                n2 = new_nt('N'); insert(rule, pos, n2, r.random() < 0.5)
+                rules.append([n2, None, 0, [], None]); rules.append([n2, 'z' + n2.lower(), r.choice([0, 1, 2]), [r.choice(tn)], [0]])
+            y = r.random()
+            if y < 0.5: rules.append([n, None, 0, [], None])
+            elif y < 0.75: rules.append([n, 'e' + n.lower(), r.choice([0, 1, 3]), [], []])
+            else:
+                m = new_nt('M'); rules.append([n, None, 0, [m], [0]]); rules.append([m, None, 0, [], None])
+            if r.random() < 0.8: rules.append([n, None, 0, [r.choice(tn)], [0]] if r.random() < 0.6 else [n, 'y' + n.lower(), r.choice([0, 1, 2]), [r.choice(tn)], [0]])
+        elif k == 'unit' and rule[3]:
+            pos = r.randrange(len(rule[3])); x = rule[3][pos]
+            if x == 'error': continue
+            u = new_nt('U'); rule[3] = rule[3][:pos] + [u] + rule[3][pos + 1:]
+            if r.random() < 0.4:
+                v = new_nt('U'); rules.append([u, None, 0, [v], [0]]); rules.append([v, None, 0, [x], [0]])
+            elif r.random() < 0.5: rules.append([u, 'w' + u.lower(), r.choice([0, 1, 2]), [x], [0]])
+            else: rules.append([u, None, 0, [x], [0]])
+        elif k == 'dup':
+            lhs, an, cost, rhs, tr = rule
+            n = len(rhs); idx = list(range(n)); r.shuffle(idx)
+            rules.append([lhs, 'd%d%s' % (len(rules), lhs.lower()), r.choice([0, 1, 2, 5]), list(rhs), idx[:r.randint(0, n)]])
+        elif k == 'embed':
+            a, b = r.choice(tn), r.choice(tn)
+            rules.append([rule[0], 'm' + rule[0].lower(), r.choice([0, 1]), [a, rule[0], b], [1]] if r.random() < 0.5 else [rule[0], None, 0, [a, rule[0], b], [1]])
+        elif k == 'erralt':
+            tail = [r.choice(tn)] if r.random() < 0.6 else []
+            rules.append([rule[0], 'x' + rule[0].lower(), r.choice([0, 1, 2]), ['error'] + tail, r.choice([[0], [], [NIL]])])
+    if not with_transl: rules = [[l, None, 0, rh, None] for l, _, _, rh, _ in rules]
+    out = [tuple(x) for x in rules]
+    for st in ((g.strict, False) if g.strict else (False,)):
+        if py_check(g.terms, out, st) == 0: return Grammar(g.terms, out, st)
+    return g
+
+
 def gen_grammar(r, nnt=None, nt_=None, err_prob=0.25, maxrules=3, strict=None, with_transl=True, tries=60):
+    g = gen_grammar0(r, nnt, nt_, err_prob, maxrules, strict, with_transl, tries)
+    if nnt is None and nt_ is None and strict is None and r.random() < 0.3:
+        g = transform_grammar(r, g, with_transl)
+    return g
+
+
+def gen_grammar0(r, nnt=None, nt_=None, err_prob=0.25, maxrules=3, strict=None, with_transl=True, tries=60):
     if nnt is None and nt_ is None and strict is None:
         x = r.random()
         if err_prob >= 0.3 and with_transl and r.random() < 0.08:
